@@ -405,8 +405,8 @@ class _RWHooks(sc.SearchHooks):
             return Seq([Obj(tag), Rat.atom(f"SPEC({vkey(sp)})")], "tuple")
         if fname == "gen_shape":
             return Seq([Rat.atom("PROP"), Rat.atom("NOGO")], "tuple")
-        if fname == "point_sort":
-            return Rat.atom("starting_field")
+        if fname == "point_sort" and len(args) >= 2:
+            return Obj(f"PERM({vkey(args[1])})")  # the same boreholes, reordered (shape checked in C01)
         if fname and fname.endswith(".append") and fname.startswith("self."):
             return Const(None)
         return super().on_call(node, fname, args, kwargs, st, eng)
@@ -662,6 +662,17 @@ VARIANTS = [
                     self.sim_params.max_height,""")], "R02.3"),
     Variant("bisection midpoint recorded under a shifted index", "break",
             [(SR, "            self.calculated_temperatures[c_idx] = c_t_excess", "            self.calculated_temperatures[c_idx + 1] = c_t_excess")], "R02.2"),
+    Variant("capped right end taken directly from the filtered comprehension (repaired defect F9 returns)", "break",
+            [(SR, """            allowed = [idx for idx, x in enumerate(num_coordinates_in_each) if x < self.sim_params.max_boreholes]
+            if not allowed:
+                raise ValueError("Search failed: every field in the domain has at least max_boreholes boreholes.")
+            x_r_idx = allowed[-1]""", """            x_r_idx = [idx for idx, x in enumerate(num_coordinates_in_each) if x < self.sim_params.max_boreholes][-1]""")], "R02.5"),
+    Variant("non-emptiness guard of the capped right end removed", "break",
+            [(SR, """            if not allowed:
+                raise ValueError("Search failed: every field in the domain has at least max_boreholes boreholes.")
+""", "")], "R02.5"),
+    Variant("row-wise removal branch no longer defaults to the full sparse field (repaired defect F11 returns)", "break",
+            [(SR, "                selected_coordinates = starting_field\n                selected_specifier = lower_field_specifier", "                selected_specifier = lower_field_specifier")], "R02.6"),
     Variant("'<' -> '<=' in the cap filter", "benign",
             [(SR, "if x < self.sim_params.max_boreholes]", "if x <= self.sim_params.max_boreholes]")]),
     Variant("message text of the ValueError changed", "benign",
